@@ -64,6 +64,7 @@ Proof.
   - apply K_inter; [apply IHt1|apply IHt2].
   - apply K_keyof, IHt.
   - apply K_infer.
+  - intros W; discriminate. - apply IHt.
   - apply K_paren, IHt.
   - apply K_fn; assumption.
   - intros W; discriminate. - split; [apply IHt1|apply IHt2].
@@ -74,7 +75,7 @@ Proof.
   - intros W; discriminate. - split; [apply tparams_st; assumption|split; [apply params_loop; assumption|apply ret_st; assumption]].
   - intros W; discriminate. - split; [apply IHt1|apply IHt2].
   - intros W; discriminate. - split; [apply IHt1|split; [apply IHt2|apply IHt3]].
-  - apply K_cond; [apply IHt1|apply IHt2|apply IHt3|apply IHt4].
+  - apply K_cond; [apply IHt1| |apply IHt3|apply IHt4]. destruct t2; apply IHt2.
   - apply K_pred, IHt.
   - apply K_template, Forall_Kst; assumption.
 Qed.
